@@ -64,7 +64,7 @@ CONSTANTS DBs, Colls,       \* database / collection parts of specifications, "*
           MaxLive,          \* CDCServerConfig.MaxTaskNum
           WithRestart,
           SimPrint,         \* TRUE: print the plan from a final action (TLC -simulate evaluates invariants on ALL successors)
-          DelW, RestartW,   \* multiplicity of the delete / restart successors (only to balance TLC -simulate, 1 otherwise)
+          DelW, RestartW,   \* multiplicity of the delete (and step) / restart successors (only to balance TLC -simulate, 1 otherwise)
           PartialOverlapChecked, ExcludeKept, UserRoleReverted, ReloadOrsUserRole,
           MaxFlight,        \* 0 = every request runs alone; k > 0 = up to k create requests in flight (Begin / Advance)
           RevertBySnapshot  \* negative control, see above (FALSE = the code)
@@ -239,10 +239,11 @@ Step ==
                                         ur |-> ur, noauto |-> na, fault |-> f, tgt |-> t])
             \/ /\ Begin(t, n, mk, ur, f)
                /\ hist' = Append(hist, [op |-> "begin", db |-> n.db, coll |-> n.coll, via |-> v, map |-> mk,
-                                        ur |-> ur, noauto |-> na, fault |-> f, tgt |-> t])
-       \/ \E i \in InFlight :
+                                        ur |-> ur, noauto |-> na, fault |-> f, tgt |-> t,
+                                        adm |-> ~(Dup(t, n, ur) \/ BadMap(n, mk))])   \* (what the design expects; the driver ignores it)
+       \/ \E i \in InFlight, w \in 1..DelW :
             /\ Advance(i)
-            /\ hist' = Append(hist, [op |-> "step", req |-> i])
+            /\ hist' = Append(hist, [op |-> "step", req |-> i, w |-> w])
        \/ \E i \in Ids, f \in DelFaults, w \in 1..DelW :
             /\ Delete(i, f) /\ UNCHANGED fl
             /\ hist' = Append(hist, [op |-> "delete", task |-> i, fault |-> f, w |-> w])
@@ -281,4 +282,7 @@ TypeOK == /\ \A t \in Targets : \A n \in Names : data[t][n] \in 0..MaxOps /\ exc
 
 \* plan output: every complete history is one plan for the replay driver
 PlanOut == Len(hist) = MaxOps => PrintT("PLAN " \o ToJson(hist))
+\* only the histories in which something happened while a create was in flight (the others are plans of the sequential configs)
+Overlapped == \E k \in 1..(Len(hist) - 1) : hist[k].op = "begin" /\ hist[k].adm /\ ~(hist[k+1].op = "step" /\ hist[k+1].req = k)
+PlanOutPar == (Len(hist) = MaxOps /\ Overlapped) => PrintT("PLAN " \o ToJson(hist))
 =============================================================================
